@@ -17,6 +17,8 @@ B_THOROUGH = B_QUICK + ['x64-soft', 'x64-alt1', 'x64-alt2', 'x64-aesni-all', 'a6
                         'x86-soft-all', 'x86-alt1-all']
 
 REGISTRY = {
+    'C13': dict(module='c13', level='proof', technique='global value numbering of weak_key_test + bit-level reading of its single decision term against the NIST characterisation',
+                quick=['x64', 'x64-soft-all'], thorough=['x64', 'x64-soft-all', 'x64-alt1', 'a64', 'a64-soft-all', 'x86']),
     'C05': dict(module='c05', level='other', technique='global value numbering of constructors and block functions with DES helpers as uninterpreted functions, compared with the SP 800-67 composition terms',
                 quick=['x64'], thorough=['x64', 'a64', 'x86']),
     'C01': dict(module='c01', level='other', technique='global value numbering (Herbrand terms + cancellation rewrites) over abstractly interpreted MIR: dec(enc(x)) == x as a term identity',
